@@ -132,6 +132,8 @@ def _run_variant(args):
 
 def variants_for(prop: str):
     from sa.selftest import mutants, neutral
+    if not mutants.MUTANTS:
+        mutants.load_all()
     out = []
     for m in mutants.MUTANTS:
         if m["prop"] == prop:
